@@ -621,3 +621,232 @@ Proof.
   intros D ops. apply run_ops_no_raise_gen with (I := fun _ => True); auto.
   intros st o _. split; auto. destruct o; cbn; auto. destruct (aget k st); auto.
 Qed.
+
+(* ================================================================== HybridCache: invariant, no raise *)
+Lemma amem_keys_eq : forall V W (a : list (nat * V)) (b : list (nat * W)) k,
+  map fst a = map fst b -> amem k a = amem k b.
+Proof.
+  intros V W a b k E. destruct (amem k a) eqn:Ea, (amem k b) eqn:Eb; auto.
+  - apply amem_In in Ea. rewrite E in Ea. apply amem_In in Ea. congruence.
+  - apply amem_In in Eb. rewrite <- E in Eb. apply amem_In in Eb. congruence.
+Qed.
+
+Lemma mapM_map : forall X Y (f : X -> result Y) (g : X -> Y) l,
+  (forall x, In x l -> f x = Ok (g x)) -> mapM f l = Ok (map g l).
+Proof.
+  intros X Y f g l. induction l as [|x t IH]; intros H; cbn; auto.
+  rewrite (H x) by now left. cbn. rewrite IH; auto. intros y Hy. apply H. now right.
+Qed.
+
+Lemma aget_map : forall V W (h : nat * V -> W) (l : list (nat * V)) k,
+  aget k (map (fun kv => (fst kv, h kv)) l) = option_map (fun v => h (k, v)) (aget k l).
+Proof.
+  intros V W h l k. induction l as [|[k' v'] t IH]; cbn; auto.
+  destruct (Nat.eqb k k') eqn:E; auto. apply Nat.eqb_eq in E. now subst.
+Qed.
+
+Lemma aget_In_NoDup : forall V (l : list (nat * V)) kv,
+  NoDup (map fst l) -> In kv l -> aget (fst kv) l = Some (snd kv).
+Proof.
+  intros V l kv ND. induction l as [|[k' v'] t IH]; cbn; [tauto|]. intros [H|H].
+  - subst kv. cbn. now rewrite Nat.eqb_refl.
+  - inversion ND as [|? ? NI ND']; subst. destruct (Nat.eqb (fst kv) k') eqn:E.
+    + apply Nat.eqb_eq in E. subst k'. exfalso. apply NI. apply in_map_iff. exists kv. auto.
+    + auto.
+Qed.
+
+Lemma fold_add_ge : forall l a x, In x l -> x <= fold_left Nat.add l a.
+Proof.
+  assert (G : forall l a, a <= fold_left Nat.add l a).
+  { induction l as [|y t IH]; intros a; cbn; auto. specialize (IH (a + y)). lia. }
+  induction l as [|y t IH]; intros a x; cbn; [tauto|]. intros [H|H].
+  - subst. specialize (G t (a + x)). lia.
+  - auto.
+Qed.
+
+Lemma Forall_aset : forall V (P : nat * V -> Prop) k v (d : list (nat * V)),
+  P (k, v) -> Forall P d -> Forall P (aset k v d).
+Proof.
+  intros V P k v d Hv H. induction H as [|[k' v'] t Hx Ht IH]; cbn.
+  - constructor; auto.
+  - destruct (Nat.eqb k k'); constructor; auto.
+Qed.
+
+Lemma Forall_adel : forall V (P : nat * V -> Prop) k (d : list (nat * V)),
+  Forall P d -> Forall P (adel k d).
+Proof.
+  intros V P k d H. induction H as [|[k' v'] t Hx Ht IH]; cbn; auto.
+  destruct (Nat.eqb k k'); auto.
+Qed.
+
+Section HybridFacts.
+  Variable A : arith.
+  Variables aw dw : num A.
+  Variable mx : nat.
+  Hypothesis Hmx : 1 <= mx.
+
+  Notation hstep := (hyb_step A aw dw mx true).
+
+  Definition hyb_inv (st : hyb A) : Prop :=
+    map fst (h_cnt st) = map fst (h_dict st)
+    /\ map fst (h_dur st) = map fst (h_dict st)
+    /\ NoDup (map fst (h_dict st))
+    /\ length (h_dict st) <= mx
+    /\ Forall (fun kv => 1 <= snd kv) (h_cnt st).
+
+  Lemma hyb_inv_empty : hyb_inv hyb_empty.
+  Proof. unfold hyb_inv; cbn. repeat split; auto; try constructor. lia. Qed.
+
+  Lemma argmin_In : forall l b, In (argmin A b l) (map fst (b :: l)).
+  Proof.
+    induction l as [|[k x] t IH]; intros b; cbn; auto.
+    destruct (nltb A x (snd b)).
+    - specialize (IH (k, x)). cbn in IH. tauto.
+    - specialize (IH b). cbn in IH. tauto.
+  Qed.
+
+  (* what _expire computes, in closed form *)
+  Definition tot_c (st : hyb A) : nat := fold_left Nat.add (map snd (h_cnt st)) 0.
+  Definition tot_d (st : hyb A) : num A := fold_left (nadd A) (map snd (h_dur st)) (n0 A).
+  Definition ncount (st : hyb A) (c : nat) : num A := ndiv A (nnat A c) (nnat A (tot_c st)).
+  Definition ndur (st : hyb A) (d : num A) : num A :=
+    if nzero A (tot_d st) then n0 A else ndiv A d (tot_d st).
+  Definition score_of (st : hyb A) (kv : nat * nat) : num A :=
+    nadd A (nmul A aw (ncount st (snd kv)))
+           (nmul A dw (match aget (fst kv) (h_dur st) with Some d => ndur st d | None => n0 A end)).
+  Definition score_list (st : hyb A) : list (nat * num A) :=
+    map (fun kv => (fst kv, score_of st kv)) (h_cnt st).
+  Definition victim (st : hyb A) : nat :=
+    match score_list st with b :: r => argmin A b r | [] => 0 end.
+
+  Lemma victim_In : forall st, h_cnt st <> [] -> In (victim st) (map fst (h_cnt st)).
+  Proof.
+    intros st NE. unfold victim. destruct (score_list st) as [|b r] eqn:E.
+    - unfold score_list in E. destruct (h_cnt st); [congruence | discriminate].
+    - pose proof (argmin_In r b) as H. rewrite <- E in H. unfold score_list in H.
+      rewrite map_map in H. cbn in H. exact H.
+  Qed.
+
+  Lemma hyb_expire_eq : forall st, hyb_inv st -> h_dict st <> [] ->
+    hyb_expire A aw dw true st
+    = (mkHyb (adel (victim st) (h_dict st)) (adel (victim st) (h_cnt st)) (adel (victim st) (h_dur st)), None).
+  Proof.
+    intros st (Kc & Kd & ND & LE & POS) NE.
+    assert (NEc : h_cnt st <> []).
+    { intros H. rewrite H in Kc. cbn in Kc. destruct (h_dict st); [congruence | discriminate]. }
+    assert (NDc : NoDup (map fst (h_cnt st))) by (rewrite Kc; auto).
+    unfold hyb_expire.
+    (* normalized counts *)
+    assert (E1 : norm_counts A (h_cnt st) = Ok (map (fun kv => (fst kv, ncount st (snd kv))) (h_cnt st))).
+    { unfold norm_counts. apply mapM_map. intros kv Hin. fold (tot_c st).
+      assert (1 <= tot_c st).
+      { unfold tot_c. rewrite Forall_forall in POS. specialize (POS kv Hin).
+        pose proof (fold_add_ge (map snd (h_cnt st)) 0 (snd kv) (in_map snd _ _ Hin)). lia. }
+      destruct (tot_c st =? 0) eqn:E; [apply Nat.eqb_eq in E; lia | reflexivity]. }
+    rewrite E1.
+    assert (E2 : norm_durs A true (h_dur st) = Ok (map (fun kv => (fst kv, ndur st (snd kv))) (h_dur st))).
+    { unfold norm_durs. apply mapM_map. intros kv Hin. fold (tot_d st). unfold ndur.
+      destruct (nzero A (tot_d st)); reflexivity. }
+    rewrite E2.
+    assert (E3 : scores A aw dw (h_cnt st) (map (fun kv => (fst kv, ncount st (snd kv))) (h_cnt st))
+                        (map (fun kv => (fst kv, ndur st (snd kv))) (h_dur st)) = Ok (score_list st)).
+    { unfold scores, score_list. apply mapM_map. intros kv Hin.
+      rewrite (aget_map _ _ (fun kv => ncount st (snd kv))), (aget_map _ _ (fun kv => ndur st (snd kv))).
+      rewrite (aget_In_NoDup _ _ kv NDc Hin). cbn.
+      assert (Hk : In (fst kv) (map fst (h_dur st))) by (rewrite Kd, <- Kc; now apply in_map).
+      apply amem_In in Hk. destruct (amem_aget _ _ Hk) as [d Hd]. unfold score_of. rewrite Hd. reflexivity. }
+    rewrite E3. pose proof (victim_In st NEc) as HV. unfold victim in *.
+    destruct (score_list st) as [|b r] eqn:ES.
+    - unfold score_list in ES. destruct (h_cnt st); [congruence | discriminate].
+    - set (k := argmin A b r) in *.
+      assert (M1 : amem k (h_dict st) = true) by (apply amem_In; rewrite <- Kc; auto).
+      assert (M2 : amem k (h_cnt st) = true) by (apply amem_In; auto).
+      assert (M3 : amem k (h_dur st) = true) by (apply amem_In; rewrite Kd, <- Kc; auto).
+      rewrite M1, M2, M3. reflexivity.
+  Qed.
+
+  Lemma hyb_del_inv : forall st k, hyb_inv st -> In k (map fst (h_dict st)) ->
+    hyb_inv (mkHyb (adel k (h_dict st)) (adel k (h_cnt st)) (adel k (h_dur st)))
+    /\ S (length (adel k (h_dict st))) = length (h_dict st).
+  Proof.
+    intros st k (Kc & Kd & ND & LE & POS) Hk.
+    assert (L : S (length (adel k (h_dict st))) = length (h_dict st)).
+    { rewrite <- (length_keys (adel k (h_dict st))), keys_adel, <- (length_keys (h_dict st)).
+      now apply length_qremove. }
+    split; auto. unfold hyb_inv; cbn. rewrite !keys_adel, Kc, Kd. repeat split; auto.
+    - now apply NoDup_qremove.
+    - lia.
+    - now apply Forall_adel.
+  Qed.
+
+  Lemma hyb_set_inv : forall st k v d, hyb_inv st ->
+    (amem k (h_dict st) = false -> S (length (h_dict st)) <= mx) ->
+    hyb_inv (mkHyb (aset k v (h_dict st)) (aset k 1 (h_cnt st)) (aset k d (h_dur st))).
+  Proof.
+    intros st k v d (Kc & Kd & ND & LE & POS) Hroom. unfold hyb_inv; cbn.
+    rewrite !keys_aset, (amem_keys_eq _ _ _ _ k Kc), (amem_keys_eq _ _ _ _ k Kd), Kc, Kd.
+    repeat split; auto.
+    - destruct (amem k (h_dict st)) eqn:E; auto. apply NoDup_snoc; auto. now apply amem_false_In.
+    - rewrite <- (length_keys (aset k v (h_dict st))), keys_aset.
+      destruct (amem k (h_dict st)) eqn:E; rewrite ?app_length, length_keys; cbn; auto.
+      specialize (Hroom eq_refl). lia.
+    - apply Forall_aset; auto.
+  Qed.
+
+  Lemma hyb_put_ok : forall st k v d, hyb_inv st ->
+    hyb_inv (fst (hyb_put A aw dw mx true st k v d)) /\ snd (hyb_put A aw dw mx true st k v d) = ONone.
+  Proof.
+    intros st k v d Hinv. pose proof Hinv as (Kc & Kd & ND & LE & POS). unfold hyb_put.
+    destruct (mx <=? length (h_dict st)) eqn:Efull.
+    - apply Nat.leb_le in Efull.
+      assert (NE : h_dict st <> []) by (intros H; rewrite H in Efull; cbn in Efull; lia).
+      rewrite (hyb_expire_eq st Hinv NE). cbn.
+      assert (HV : In (victim st) (map fst (h_dict st))).
+      { rewrite <- Kc. apply victim_In. intros H. rewrite H in Kc. cbn in Kc.
+        destruct (h_dict st); [congruence | discriminate]. }
+      destruct (hyb_del_inv st (victim st) Hinv HV) as [I1 L1]. split; auto.
+      apply (hyb_set_inv _ k v d I1). cbn. intros _. lia.
+    - apply Nat.leb_gt in Efull. cbn. split; auto. apply hyb_set_inv; auto.
+  Qed.
+
+  Lemma hyb_get_ok : forall st k, hyb_inv st ->
+    hyb_inv (fst (hyb_get A st k)) /\ is_raised (snd (hyb_get A st k)) = false.
+  Proof.
+    intros st k Hinv. pose proof Hinv as (Kc & Kd & ND & LE & POS). unfold hyb_get.
+    destruct (amem k (h_dict st)) eqn:Ek; cbn; auto.
+    assert (Ec : amem k (h_cnt st) = true) by (rewrite (amem_keys_eq _ _ _ _ k Kc); auto).
+    destruct (amem_aget _ _ Ec) as [c Hc]. rewrite Hc.
+    destruct (amem_aget _ _ Ek) as [v Hv]. rewrite Hv. cbn. split; auto.
+    unfold hyb_inv; cbn. rewrite keys_aset, Ec. repeat split; auto.
+    apply Forall_aset; auto. cbn. lia.
+  Qed.
+
+  Lemma hyb_step_ok : forall st o, hyb_inv st ->
+    hyb_inv (fst (hstep st o)) /\ is_raised (snd (hstep st o)) = false.
+  Proof.
+    intros st o Hinv. destruct o as [k v d|k|k| |]; cbn.
+    - destruct (hyb_put_ok st k v d Hinv) as [H1 H2]. split; auto. now rewrite H2.
+    - now apply hyb_get_ok.
+    - auto.
+    - auto.
+    - split; auto. apply hyb_inv_empty.
+  Qed.
+
+  (* hybrid_inv: the three dicts have the same keys in the same order, no duplicates, at most max_size
+     entries, every access count >= 1 - in every reachable state *)
+  Theorem hyb_inv_reachable : forall ops, hyb_inv (final hstep hyb_empty ops).
+  Proof.
+    intros ops. induction ops as [|o ops IH] using rev_ind.
+    - apply hyb_inv_empty.
+    - rewrite final_snoc. now apply hyb_step_ok.
+  Qed.
+
+  (* hybrid_no_raise: for every arithmetic (in particular IEEE floats incl. zero, inf, nan durations) *)
+  Theorem hyb_no_raise : forall ops,
+    forallb (fun r => negb (is_raised r)) (run_ops hstep hyb_empty ops) = true.
+  Proof.
+    intros ops. apply run_ops_no_raise_gen with (I := hyb_inv).
+    - intros. now apply hyb_step_ok.
+    - apply hyb_inv_empty.
+  Qed.
+End HybridFacts.
